@@ -721,6 +721,43 @@ def rule_allocator(P) -> RuleResult:
             res.fail(create.fq, 'allocator:shared-store', 'create_store() returns the same list object every time: all groups share one store', loc(create))
         if ok:
             res.ok({'allocations': n, 'handles': handles, 'store_slots': n})
+    # the node's side: every execution asks the allocator of that execution for a slot, whatever handle the node kept from an
+    # earlier execution of the same compiled query (a compiled subquery that a nested SELECT shares is executed twice in one
+    # statement; a statement compiled once can be executed again) - a handle kept is an index into a store that is not made
+    QC_ = 'beanquery.query_compile'
+    agg = P.cls(QC_, 'EvalAggregator')
+    na = agg.methods.get('allocate')
+    if na is None or len(na.params) < 2:
+        raise AnalysisError('anchor vanished: EvalAggregator.allocate(allocator)')
+    NODE, ALLOC = Sym('AGGREGATE_NODE'), Sym('ALLOCATOR_OF_THIS_RUN')
+    PREV = T('attr', (Sym('PREVIOUS_EXECUTION'), 'handle'))
+    want = T('call', (f'{show(ALLOC)}.allocate', (), ()))
+    for had_handle in (False, True):
+        def on_attr_n(base, attr, ex):
+            if base == NODE and attr == 'handle':
+                return PREV
+            return NotImplemented
+
+        def oracle_n(term, ex, _h=had_handle):
+            if term == PREV:
+                return _h
+            if isinstance(term, T) and term.op == 'cmp' and term.args[0] in ('is', 'is not', '==', '!=') and term.args[1] == PREV and term.args[2] is None:
+                return (not _h) if term.args[0] in ('is', '==') else _h
+            return None
+
+        def on_call_n(fname, fval, recv, args, kwargs, ex, node):
+            if recv == ALLOC and str(fname).endswith('.allocate'):
+                ex.events.append(('call', fname, args, kwargs))
+                return want
+            return NotImplemented
+        for p in Engine(P, on_attr=on_attr_n, oracle=oracle_n, on_call=on_call_n).paths(na, {'self': NODE, na.params[1]: ALLOC}):
+            got = p.heap.get(T('attr', (NODE, 'handle')))
+            if p.outcome == 'raise' or got != want:
+                res.fail(na.fq, 'allocator:node-handle', f'EvalAggregator.allocate must take a slot from the allocator it is given on every '
+                         f'execution; with {"a handle kept from an earlier execution" if had_handle else "no handle yet"} the node ends up with '
+                         f'`{show(got) if got is not None else "the old handle"}`: the store of the new execution has no such slot', loc(na))
+            else:
+                res.ok({'node': na.fq, 'handle_from_earlier_execution': had_handle, 'handle': 'allocator.allocate()'})
     return res
 
 
